@@ -31,6 +31,7 @@ func (e *Engine) assumeInputRefs(v Val, t types.Type) {
 	case Sc:
 		if x.S == SRef && bitsOf(t) == 0 {
 			e.sc.assume(app("bvult", x.T, bvLit(0x80000000, 32)))
+			e.sc.stampRef(x.T, 0)
 		}
 	case StructVal:
 		st := under(t).(*types.Struct)
@@ -39,8 +40,10 @@ func (e *Engine) assumeInputRefs(v Val, t types.Type) {
 		}
 	case SliceVal:
 		e.sc.assume(app("bvult", x.Arr, bvLit(0x80000000, 32)))
+		e.sc.stampRef(x.Arr, 0)
 	case IfaceVal:
 		e.sc.assume(app("bvult", x.Ref, bvLit(0x80000000, 32)))
+		e.sc.stampRef(x.Ref, 0)
 	case TupleVal:
 		tt := t.(*types.Tuple)
 		for i, f := range x {
@@ -136,7 +139,7 @@ func buildVC(w *World, c *Contract) (vc *FuncVC) {
 			r := e.evalPred(kp, append(append([]Val{}, args...), resList...), res.heap, h0)
 			regions = append(regions, r)
 			e.oblige(&Obligation{Name: c.Func + ".ensures." + cl.Label + ".canary." + f.ID, Kind: "canary", Clause: "known finding " + f.ID + " still fails: " + f.What,
-				Goal: and(res.reach, r, not(t)), Cover: true, Func: c.Func, Pos: e.posOf(fn.Pos()), Finding: f})
+				Goal: and(res.reach, r, not(t)), Cover: true, Func: c.Func, Pos: e.posOf(fn.Pos()), Finding: f, Using: cl.Using})
 		}
 		e.oblige(&Obligation{
 			Name:     c.Func + ".ensures." + cl.Label,
@@ -146,6 +149,7 @@ func buildVC(w *World, c *Contract) (vc *FuncVC) {
 			NRegions: len(regions),
 			Pos:      fmt.Sprintf("%s:%d", strings.TrimPrefix(cl.File, w.RepoDir+"/"), cl.Line),
 			Func:     c.Func,
+			Using:    cl.Using,
 		})
 		// cover of the antecedent
 		if ap := w.Preds[c.Pkg+"."+cl.Pred+"_ant"]; ap != nil {
